@@ -27,7 +27,7 @@ MIN_FRACTIONS = {"nontrivial": 0.3, "kind:datetime": 0.15, "kind:linear": 0.08, 
 
 
 def budget(tier):
-    return dict(examples=250, shards=4) if tier == "quick" else dict(examples=3000, shards=16)
+    return dict(examples=250, shards=4) if tier == "quick" else dict(examples=1500, shards=16)
 
 
 def strategy(tier):
